@@ -82,7 +82,14 @@ def _par_work(i):
     rep = common.Report(_PG['pid'], 'quick', 0)
 
     def go():
-        fn(ctx, rep, *items[i])
+        try:
+            fn(ctx, rep, *items[i])
+        except Exception as ex:      # noqa  - a crash of the machinery is never a verdict: inconclusive, exit 2
+            import traceback
+            ob = common.Obligation('crash:%s' % (items[i][1] if len(items[i]) > 1 and isinstance(items[i][1], str) else (items[i][0] if isinstance(items[i][0], str) else i)), 'the check itself failed on this item')
+            ob.status = 'inconclusive'
+            ob.detail = 'internal error: %s: %s | %s' % (type(ex).__name__, str(ex)[:200], traceback.format_exc()[-600:].replace('\n', ' / '))
+            rep.add(ob)
     engine.run_in_big_stack(go)
     tot, used, enc = ctx.totals()
     ctx.interps.clear()
